@@ -69,4 +69,21 @@ theorem handler_same_order (sc : SpecCfg) (vs : List Value) (hnt : sc.kind.isTry
 /-- a single branch yields its bare value -/
 theorem single_branch_bare (v : Value) : mkTuple [v] = v := rfl
 
+/-- Non-vacuity of `result_positions`: depths (1, 3, 2), every chain returns a value that names its branch and step;
+    the run ends with the three values in branch order, each taken from the branch's own last step. -/
+def posWorld : World where
+  capture _ _ _ _ _ := .ok (.atom 0)
+  chain b k _ _ _ := ⟨[], .ok (.succ (.atom (b + 10 * k)))⟩
+  handlerDef := .ok ()
+  handlerCall _ := .ok (.atom 0)
+  joiner _ vs := .ok (mkTuple vs)
+
+def posProg : Input :=
+  let ini : Member := ⟨.initial, false, .none, [⟨.expr, []⟩]⟩
+  let stp : Member := ⟨.map, true, .none, [⟨.expr, []⟩]⟩
+  { branches := [⟨none, [ini]⟩, ⟨none, [ini, stp, stp]⟩, ⟨none, [ini, stp]⟩] }
+
+example : (loopOf posWorld none posProg ⟨false, false, false⟩).res = .ok (.vals [.succ (.atom 0), .succ (.atom 21), .succ (.atom 12)]) := by rfl
+example : (loopOf posWorld none posProg ⟨false, false, true⟩).res = .ok (.vals [.succ (.atom 0), .succ (.atom 21), .succ (.atom 12)]) := by rfl
+
 end JoinModel.Props.C04
